@@ -338,6 +338,16 @@ func genHand(seed int64, allow map[string]bool) *Scenario {
 	}
 	k := 2 + r.Intn(min(b.sc.N-1-len(b.ids), 6))
 	b.seatPlayers(k)
+	// ... and the hand he walks away from is one of raises and re-raises (deep stacks, minimum raises): he leaves between the
+	// 3-bet and the 4-bet
+	raisy := early != "" && r.Intn(2) == 0
+	if raisy {
+		for _, id := range b.ids {
+			if id != early {
+				b.add(Op{Op: "reserve", ID: id, Seat: -1, Chips: 40})
+			}
+		}
+	}
 	if r.Intn(2) == 0 && len(b.ids) < b.sc.N { // a seated player who never joins (sitting out)
 		b.add(Op{Op: "reserve", ID: b.newID(), Seat: -1, Chips: 9})
 	}
@@ -370,7 +380,10 @@ func genHand(seed int64, allow map[string]bool) *Scenario {
 		if b.sc.ActionTime > 0 && r.Intn(6) == 0 {
 			hp.ThinkMs, hp.ThinkTurn = 2300, r.Intn(3)
 		}
-		if early != "" && h == 0 {
+		if early != "" && h == 0 && raisy {
+			hp.Policy = "raisy"
+			hp.Inj = append(hp.Inj, Inj{At: "turn2", Ops: []Op{{Op: "leave", IDs: []string{early}}}})
+		} else if early != "" && h == 0 {
 			hp.Inj = append(hp.Inj, Inj{At: []string{"turn0", "turn1", "blinds", "ready2"}[r.Intn(4)], Ops: []Op{{Op: "leave", IDs: []string{early}}}})
 		}
 		if r.Intn(4) == 0 {
